@@ -175,6 +175,10 @@ impl<'a> Parser<'a> {
     /// Parse a single statement
     #[inline]
     fn parse_statement(&mut self) -> Result<Stmt, ParseError> {
+        // verification harness: scheduler yield point (statement granularity while parsing)
+        #[cfg(feature = "verif")]
+        crate::verif::phase();
+
         let stmt = match self.current_token {
             Token::Declare => self.parse_decl_statement()?,
             Token::OpenBrace => Stmt::Block(self.parse_block_statement()?),
